@@ -33,7 +33,7 @@ RULE = ("per model (defaults of HEM/Merton/VG/CGMY, one CGMY draw per activity b
         "when x^n*nu is not integrable at a 0 inside the closed interval (VG: n = 0; CGMY: n <= y) -- this includes the "
         "degenerate interval [0,0] there. Tolerance: 1e-8*|ref| + 1e-12 + 1e-13*(one-sided tail moment that the closed form "
         "subtracts; Merton: the absolute moment over R); routes that the implementation evaluates with scipy.integrate.quad "
-        "(base-class n >= 3 for HEM/Merton/CGMY, CGMY one-sided x^2) get 1e-7*|ref| + 2e-10. Truncations (l, r) are non-zero "
+        "(base-class n >= 3 for HEM/Merton/CGMY, CGMY one-sided x^2) get 3e-8*|ref| + 3e-8, twice quad's own epsrel/epsabs. Truncations (l, r) are non-zero "
         "break points. non-trivial = |ref| > 1e-9 and a < b; distinct = distinct (model, route, n, a, b, truncation).")
 NOT_PROVED = [
     "Merton (erf), VG mass (E1) and CGMY (incomplete gamma) closed forms: compared with quadrature only; Mathlib has none of "
@@ -203,12 +203,10 @@ def shape_of(a, b):
 
 
 def tolerance(ref, scale, quad_route, straddle=False):
-    if quad_route and straddle:
-        # scipy.integrate.quad across the kink / singular derivative at 0 without `points`: the routine's own promise
-        # |err| <= max(epsabs, epsrel*|I|) with the defaults 1.49e-8, doubled
-        return mp.mpf("3e-8") * abs(ref) + mp.mpf("3e-8")
     if quad_route:
-        return mp.mpf("1e-6") * abs(ref) + mp.mpf("1e-9")
+        # the implementation calls scipy.integrate.quad with its defaults: |err| <= max(epsabs, epsrel*|I|), both 1.49e-8.
+        # Twice that promise is the comparison rule (measured on one-sided intervals: <= 3e-10 absolute).
+        return mp.mpf("3e-8") * abs(ref) + mp.mpf("3e-8")
     return mp.mpf("1e-8") * abs(ref) + mp.mpf("1e-12") + mp.mpf("1e-13") * scale
 
 
@@ -281,7 +279,9 @@ def closed_form_probe(c: Case, route, n, a, b, nu=None, trunc=None):
     inp = c.inp(n, route, a, b, **kw)
     cls = c.cls(n, route, aa, bb, **({"truncated": True, "outside": bool(max(a, trunc[0]) > min(b, trunc[1]))} if trunc else {}))
     if ref is None:
-        ctx.count(probe, inp, nontrivial=False, branch="skipped_not_integrable_at_0" if not c.ref.cache.get(("unreliable",)) else "skipped")
+        unrel = any(isinstance(k_, tuple) and k_ and k_[0] == "unreliable" and k_[1][0] == n for k_ in c.ref.cache)
+        ctx.count(probe, inp, nontrivial=False, branch="skipped_reference_unreliable" if unrel and c.ref.integrable0(n)
+                  else "skipped_not_integrable_at_0")
         return
     st, v = call(nu, route, n, a, b) if trunc else c.impl(route, n, a, b)
     quad_route = is_quad_route(c.fam, n, aa, bb)
@@ -340,6 +340,8 @@ def split_model_probe(c: Case, n, route):
     ctx = c.ctx
     fin = [p for p in c.pts if not math.isinf(p)]
     ks, tps, tns = [], [], []
+    if is_quad_route(c.fam, n, 1.0, 2.0):
+        return      # one-sided values come from scipy quad (no tail pattern in the code)
     for u in fin:
         tp = c.good(route, n, u, INF) if u >= 0 else 0.0
         tn = c.good(route, n, -INF, u) if u <= 0 else 0.0
@@ -352,6 +354,8 @@ def split_model_probe(c: Case, n, route):
         for b in ks + [INF]:
             if not a < b:
                 continue
+            if is_quad_route(c.fam, n, a, b):
+                continue    # the base-class quadrature has no split pattern
             v = c.good(route, n, a, b)
             if v is None:
                 continue
@@ -626,6 +630,9 @@ def generic_fallback_probe(ctx, rng, fam, params, nside):
         for n in range(NMAX + 1):
             for route in routes(n):
                 ref = c.ref.integral(n, a, b)
+                if ref is None:
+                    ctx.branches["c09.generic_fallback:reference_unreliable"] += 1
+                    continue
                 st, v = call(g, route, n, a, b)
                 inp = c.inp(n, route, a, b, generic=True)
                 cls = c.cls(n, route, a, b, generic=True, quad_route=True)
